@@ -545,8 +545,15 @@ fn api_rcu(stored: usize, next: usize, occ: u8) {
 // changes the stored pointer between the internal load and the exchange – to another value, or
 // away and back to the same identity (A-B-A) – at most twice per call (stated bound on the number
 // of interferences; the per-iteration obligations are unbounded).
+/// The storage under interference, as a plain pointer in a scalar static (a reference kept in an
+/// `Option` field of a struct is read back imprecisely by CBMC: a store through it may then hit
+/// "any" object and nothing folds any more).
+static mut WENV_STORAGE: *const crate::verif::AtomicPtr<Obj> = core::ptr::null();
+fn wenv_storage() -> &'static crate::verif::AtomicPtr<Obj> {
+    unsafe { &*WENV_STORAGE }
+}
+
 pub(crate) struct WEnv {
-    pub storage: Option<&'static crate::verif::AtomicPtr<Obj>>,
     pub storage_addr: usize,
     pub budget: u8,
     pub used: u8,
@@ -555,7 +562,7 @@ pub(crate) struct WEnv {
     /// value the storage held immediately before the call's successful exchange
     pub pre_cas: usize,
 }
-pub(crate) static mut WENV: WEnv = WEnv { storage: None, storage_addr: 0, budget: 0, used: 0, seen_first: false, pre_cas: 0 };
+pub(crate) static mut WENV: WEnv = WEnv { storage_addr: 0, budget: 0, used: 0, seen_first: false, pre_cas: 0 };
 
 /// Scripts: what other writers do to the stored pointer, and when, relative to the call's own
 /// accesses of the storage. Action codes: 0 nothing, 1..=3 a complete foreign swap that stores pool
@@ -597,7 +604,7 @@ fn wenv_do(action: u8) {
         return;
     }
     let e = unsafe { &mut WENV };
-    let st = e.storage.unwrap();
+    let st = wenv_storage();
     e.used += 1;
     let cur_ptr = st.raw().load(core::sync::atomic::Ordering::SeqCst);
     if action == 9 {
@@ -659,13 +666,13 @@ fn wenv_before(ev: &crate::verif::Event) {
             wenv_do(unsafe { if k == 0 { S_CAS.0 } else { S_CAS.1 } });
             unsafe { AFTER_CAS_PENDING = k };
         }
-        e.pre_cas = e.storage.unwrap().raw().load(core::sync::atomic::Ordering::SeqCst) as usize;
+        e.pre_cas = wenv_storage().raw().load(core::sync::atomic::Ordering::SeqCst) as usize;
     }
 }
 
 pub(crate) fn wenv_install<C: Config>(s: &AS<C>, budget: u8) {
     let e = unsafe { &mut WENV };
-    e.storage = Some(unsafe { &*(&s.ptr as *const crate::verif::AtomicPtr<Obj>) });
+    unsafe { WENV_STORAGE = &s.ptr as *const crate::verif::AtomicPtr<Obj> };
     e.storage_addr = storage_addr(s);
     e.budget = budget;
     e.used = 0;
@@ -1141,3 +1148,4 @@ pub(crate) fn rg_cas_restored_after_first_read_full() {
     rg_cas(4, Script { at_access: [0, 2, 0, 0, 0, 0], at_cas: [0, 0], after_cas: [0, 0], at_load: [0; 4] }, OCC_FULL);
     vcover!("rg_cas_restored_after_first_read_full_end");
 }
+
